@@ -10,6 +10,7 @@ TRUSTED_BASE = [
     "theorems are over the reals; IEEE rounding, libm (exp, sqrt, erfc) and the Lean compiler/runtime executing the Float instance are trusted executable code",
     "CPython 3.12 semantics as encoded in the model (stable sort, exact int/float comparison, truthiness, bool subclass of int, dict insertion order, itertools.permutations order)",
     "the Python harness (generators, canonicalisation, comparison, search) and the driver's parser",
+    "rounding-free correspondence (harness/symtrace.py, exact.py, OSModel/Tape.lean): the instrumented float class and the shims that read math.sqrt/exp/erfc and NormalDist cdf/pdf/inv_cdf as the real functions; the big-float evaluator OSModel/HiPrec.lean, whose arithmetic core (comparison exact; add/sub/mul within 2^(1-P), div/sqrt within 2^(2-P)) is proved in OSProofs/Props/Oracle.lean while its series (exp, erf/erfc, pi, ln 2, Phi^-1) are trusted and cross-checked",
 ]
 EXTRA_TRUST = {}
 ASSUMPTIONS = {}
